@@ -97,6 +97,18 @@ Definition dyn_range (low high : option pv) (mask : Z) (v : pv) : vres :=
       | _, _ => Reject            (* bounds of another type: outside the model (class_ok asks for Int bound traits) *)
       end
   end.
+(* BaseRange._get (trait_types.py:1840-1856): what READING a name-based Range yields: the cached value — else the default,
+   which is the current low bound (Range(low='y', ..) without value) — clamped into [low, high] as they are now *)
+Definition dyn_readable (c : cls) (s : inst) (n lo hi : Z) : option pv :=
+  match read c s lo, read c s hi with
+  | Some (PInt l), Some (PInt h) =>
+      let z := match get s n with Some (PInt z) => z | _ => l end in
+      Some (PInt (if z <? l then l else if z >? h then h else z))
+  | _, _ => None
+  end.
+(* the readable value is reported under the pseudo-name n + 2000 *)
+Definition rname (n : Z) : Z := n + 2000.
+
 (* validation with access to the instance *)
 Definition validate_s (E : env) (c : cls) (s : inst) (d : desc) (v : pv) : vres :=
   match d with
